@@ -88,6 +88,30 @@ def ms4(F, R):
                   % (name, vs, a["version"], a["checksum"][:12]))
 
 
+def ms6(F, R):
+    """a graph built inside the crate from the ids of another one (`slice`) has that graph's vertex capacity: every id that is
+    in range for the source is in range for it (the containers check the range only in a debug-assertion build)"""
+    n = 0
+    for b in F.roots():
+        if b.self_adt != "Sodg" or b.path in F.test_bodies or b.arg_count < 1 or "Sodg" not in b.locals[1]["ty"]:
+            continue
+        for e in Collector(F).collect(b):
+            if e.kind != "call" or e.name != "empty" or not e.callee.get("local") or "Sodg" not in e.path or not e.args:
+                continue
+            n += 1
+            a = strip_load(e.args[0])
+            ok = a[0] == "call" and a[1].split("::")[-1] == "capacity" and a[2] and strip_load(a[2][0])[0] == "field" and \
+                strip_load(a[2][0])[2] == "Sodg::vertices" and strip_load(strip_load(a[2][0])[1]) == ("param", 1)
+            if ok:
+                R.ok("MS6", e.where(), "%s: the new graph has the vertex capacity of `self`" % fn_key(b))
+            else:
+                R.bad("MS6", "MS6/%s/new-graph-capacity" % fn_key(b), e.where(),
+                      "a graph that receives ids of `self` is not created with the vertex capacity of `self`: an id that is valid for the "
+                      "source can be out of range for it (a panic in a debug build, an out-of-bounds write in a release build)",
+                      {"capacity": show(a, e.body)[:200]})
+    R.floor("MS6", "graphs constructed from the ids of another graph", n, 1)
+
+
 def ms5(F, R):
     sodg = F.adts.get("Sodg")
     if sodg is None:
